@@ -493,7 +493,7 @@ def run(ctx):
             cfuts.append(pool.submit(compile_case, case))
     # ---------------------------------------------------------------- spec -> code
     tails = [b"\0", b"a", b"\xff"]
-    oc = [("0_a", 2, 4, 3)] if quick else [("$0A_ab", 2, 3, 3), ("_a", 3, 4, 4)]
+    oc = [("0_a", 2, 4, 3)] if quick else [("$0A_a", 2, 3, 3), ("_a", 3, 4, 4)]
     for alpha, nm, tb, se in oc:
         oracle_replay(ctx, real, alpha, nm, tb, se, tails)
     ctx.cov["exhaustive"] = True
